@@ -11,7 +11,7 @@ from ptstat import AnalysisError, algebra
 from ptstat.symval import SymRaise
 from ptstat.taint import tainted_names, reductions_over
 from spec import neutron as spec
-from .common import eq, fsite, folder, _s, constants_lint
+from .common import eq, fsite, folder, _s, constants_lint, public_entry_points
 from .nworld import neutron_world
 
 EXPLANATION = (
@@ -212,6 +212,7 @@ def run(ctx):
         ctx.check(algebra.nonneg(kout[k]), "R6", f"{k} >= 0 for positive number density and wavelength, any complex b_c",
                   f"sign of {_s(kout[k], 160)} is not determined by abs/max/squares", fsite(ctx, callees[0]),
                   sample=_s(kout[k], 160))
+    public_entry_points(ctx, "RW", [("neutron_sld", "nsf.neutron_sld"), ("neutron_scattering", "nsf.neutron_scattering")])
     ctx.floor("R6", 6)
     constants_lint(ctx, "R4", ["plancks_constant", "electron_volt", "neutron_mass", "atomic_mass_constant"],
                    "lambda = h / sqrt(2 m_n E): the wavelength/energy/velocity conversions")
